@@ -3,10 +3,10 @@ CONSTANTS
   Conns = {1, 2}
   HsKinds = {"valid", "garbage"}
   TgtKinds = {"ok", "refuse"}
-  MaxC = 1
+  MaxC = 0
   MaxT = 0
-  MaxTok = 3
-  AllowBad = TRUE
+  MaxTok = 2
+  AllowBad = FALSE
   AllowSplit = FALSE
   AllowRst = FALSE
   Timeout = 2
